@@ -1,6 +1,7 @@
 package c12
 
 import (
+	"encoding/binary"
 	"crypto/sha256"
 	"encoding/hex"
 	"encoding/json"
@@ -814,6 +815,8 @@ func substValues(orig byte, all bool) []byte {
 	return out
 }
 
+var boundary32 = []uint32{0, 1, 0x7f, 0x80, 0xffff, 0x10000, 0x7ffffffe, 0x7fffffff, 0x80000000, 0x80000001, 0xfffffff0, 0xfffffff8, 0xfffffffb, 0xfffffffc, 0xfffffffd, 0xfffffffe, 0xffffffff}
+
 // mutants lists the seed, every proper prefix longer than minLen and every single-byte substitution of the seed
 // (plus, when pairs is set and the seed is short, every two-position substitution with the representative values).
 func mutants(seed []byte, minLen int, all, pairs bool, f func([]byte)) {
@@ -831,6 +834,26 @@ func mutants(seed []byte, minLen int, all, pairs bool, f func([]byte)) {
 			f(buf)
 		}
 		buf[i] = seed[i]
+	}
+	// boundary integers: every 4-byte window replaced by extreme 32-bit values in both byte orders (length prefixes of the
+	// hand-written codecs), and every byte replaced by a maximal varint (length fields of the protobuf codecs)
+	if len(seed) >= 4 {
+		for i := 0; i+4 <= len(seed); i++ {
+			for _, v := range boundary32 {
+				for _, order := range []binary.ByteOrder{binary.LittleEndian, binary.BigEndian} {
+					copy(buf, seed)
+					order.PutUint32(buf[i:i+4], v)
+					f(buf)
+				}
+			}
+		}
+		copy(buf, seed)
+	}
+	for i := range seed {
+		for _, vi := range [][]byte{{0xff, 0xff, 0xff, 0xff, 0x0f}, {0xff, 0xff, 0xff, 0xff, 0xff, 0xff, 0xff, 0xff, 0xff, 0x01}, {0x80, 0x80, 0x80, 0x80, 0x08}} {
+			m := append(append(append([]byte{}, seed[:i]...), vi...), seed[i+1:]...)
+			f(m)
+		}
 	}
 	if pairs && len(seed) <= 48 {
 		for i := 0; i < len(seed); i++ {
